@@ -302,3 +302,28 @@ def c105(ctx):
                 ctx.ob('C10.7', g, 'anchor-is-a-message', ok, 'Event.id is compared with the requested id %s' % ('only on the ContinuityMessageAppended arm' if ok else
                        'for frames of ANY kind: the id of a run_spawned / run_ended / created frame is accepted as from_message_id'), line=c.line)
     ctx.floor('C10.7', 'comparisons of Event.id with the requested message id in branch / handoff', nid, 2)
+
+    # ---------------------------------------------------------------- C10.8
+    from ..taint import Taint
+    ctx.rule('C10.8', 'the message a lineage frame names is a frame of the source thread: the parent_message_id / from_message_id of every ContinuityBranched / ContinuityHandoffCreated built in the store derives from Event.id of replayed frames or from the caller\'s (validated) message id — never from the PAYLOAD of an earlier lineage frame (the parent_message_id a branched thread carries is an id of its grandparent\'s stream, not of the thread being cut).')
+    LIN = ('parent_message_id', 'from_message_id')
+    T8 = Taint(P, lambda o, n: ('the %s payload of an earlier lineage frame' % n) if o == 'rip_kernel::EventKind' and n in LIN else None,
+               scope=lambda fn: fn.path.startswith('ripd::continuities::')).run()
+    n8 = 0
+    for p_, g in sorted(P.fns.items()):
+        if not p_.startswith('ripd::continuities::'):
+            continue
+        for (bi, si, st) in g.aggregates(r'^rip_kernel::EventKind$'):
+            rv = st['rv']
+            if rv.get('variant') not in ('ContinuityBranched', 'ContinuityHandoffCreated'):
+                continue
+            for fld, op in zip(rv['fields'], rv['a']):
+                if fld not in LIN:
+                    continue
+                n8 += 1
+                ctx.touch(g)
+                lab = T8.tainted(g, op, bi)
+                ctx.ob('C10.8', g, 'lineage-names-a-source-frame:' + fld, not lab,
+                       '%s.%s %s' % (rv.get('variant'), fld, 'derives from frame ids / the caller\'s message id only' if not lab else
+                       'can carry %s: the new thread\'s lineage then points at a message that is not a frame of the thread it was cut from' % lab), line=st.get('ln'))
+    ctx.floor('C10.8', 'message-id fields of lineage frames built in the store', n8, 2)
